@@ -539,16 +539,20 @@ func runMergeCursor(c *core.Ctx) {
 			msg = "p:" + p.Name()
 		}
 	}
-	an.Instrs(fn, func(in ssa.Instruction) {
-		mu, ok := in.(*ssa.MapUpdate)
+	// (the bookkeeping may sit in a private helper of the state: then cursor and reset
+	// are related inside that helper)
+	host := fn
+	an.Region(fn, nil, func(o an.Occ) {
+		mu, ok := o.In.(*ssa.MapUpdate)
 		if !ok {
 			return
 		}
-		mp := an.PathOf(mu.Map)
-		if mp == "recv.lastEvent" && an.PathOf(mu.Value) == msg {
+		mp := o.Path(mu.Map)
+		if mp == "recv.lastEvent" && o.Path(mu.Value) == msg {
 			cursor = append(cursor, mu.Block())
+			host = mu.Parent()
 		}
-		if mp == "recv.seen" && strings.HasPrefix(an.PathOf(mu.Value), "make:map") {
+		if mp == "recv.seen" && strings.HasPrefix(o.Path(mu.Value), "make:map") {
 			resets = append(resets, mu)
 		}
 	})
@@ -565,7 +569,15 @@ func runMergeCursor(c *core.Ctx) {
 		if avoid[r.Block()] {
 			continue
 		}
-		for _, rb := range an.ReturnBlocks(fn) {
+		if r.Parent() != host {
+			good = false // reset and cursor in different functions: not related here
+			continue
+		}
+		for _, rb := range an.ReturnBlocks(host) {
+			// leaving the host with "refused" is fine: nothing is forwarded at the old timestamp
+			if rv := an.ReturnValues(an.LastInstr(rb).(*ssa.Return)); host != fn && len(rv) == 1 && isConstBool(rv[0], false) {
+				continue
+			}
 			if an.Reachable(r.Block(), rb, nil, avoid) {
 				good = false
 			}
